@@ -46,10 +46,10 @@ func Decode(r io.Reader) p.DpFactory {
 		decod := json.NewDecoder(r)
 		err := decod.Decode(&m)
 		if err != nil {
-			return nil, &p.ZogIssue{Code: zconst.IssueCodeInvalidJSON, Err: err}
+			return nil, &p.ZogIssue{Code: zconst.IssueCodeInvalidJSON, Dtype: zconst.TypeStruct, Err: err}
 		}
 		if m == nil {
-			return nil, &p.ZogIssue{Code: zconst.IssueCodeInvalidJSON, Err: errors.New("nill json body")}
+			return nil, &p.ZogIssue{Code: zconst.IssueCodeInvalidJSON, Dtype: zconst.TypeStruct, Err: errors.New("nill json body")}
 		}
 		return p.NewMapDataProvider(m, &jsonTag), nil
 	}
